@@ -18,13 +18,13 @@ func VH_C15_wildcard() {
 	present := map[string]bool{}
 	for _, n := range names {
 		k := v.Choose("kind-"+n, 4) // absent, file, dir with a child, symlink
-		if k != oAbsent {
+		if k != vh_oAbsent {
 			present[n] = true
 		}
-		mkObj(src+"/t", n, k, "s"+n, 1)
+		vh_mkObj(src+"/t", n, k, "s"+n, 1)
 	}
 	pat := v.Param("PAT", 0) // 0: "t/x*" (wildcard in the last component), 1: "t/*/k" (in a middle component)
-	if pat == 0 && findEntry(m.Snapshot(src), "t/y") != nil && findEntry(m.Snapshot(src), "t/y").Kind == m.KDir && v.Bool("nested-match") {
+	if pat == 0 && vh_findEntry(m.Snapshot(src), "t/y") != nil && vh_findEntry(m.Snapshot(src), "t/y").Kind == m.KDir && v.Bool("nested-match") {
 		// a name matching the wildcard inside a directory that does not match it
 		m.MkFile(src+"/t/y/x3", []byte("n"), 0640, 1, 1, 9000000000)
 		m.SetMtime(src+"/t/y", 8000000000)
@@ -54,7 +54,7 @@ func VH_C15_wildcard() {
 		// without a trailing separator a matching symlink can itself become the destination path, which
 		// a later individual copy then resolves (path arguments are resolved inside the root) while the
 		// wildcard copy resolved it once: the statement does not define that corner, so it is left out
-		v.Assume(!hasSymlinkMatch(src))
+		v.Assume(!vh_hasSymlinkMatch(src))
 	}
 	wild := []string{"t/x*", "t/*/k"}[pat]
 	errA := Copy(context.Background(), src, wild, dstA, dstArg, WithCopyInfo(ci))
@@ -71,7 +71,7 @@ func VH_C15_wildcard() {
 		}
 	} else {
 		for _, n := range names {
-			if findEntry(m.Snapshot(src), "t/"+n+"/k") != nil {
+			if vh_findEntry(m.Snapshot(src), "t/"+n+"/k") != nil {
 				nMatch++
 				if e := Copy(context.Background(), src, "t/"+n+"/k", dstB, dstArg); e != nil && errB == nil {
 					errB = e
@@ -93,7 +93,7 @@ func VH_C15_wildcard() {
 	after, ref := m.Snapshot(dstA), m.Snapshot(dstB)
 	v.Assert(len(after) == len(ref), "the wildcard copy creates the union of what the individual copies create")
 	for i := range ref {
-		d := findEntry(after, ref[i].Path)
+		d := vh_findEntry(after, ref[i].Path)
 		if d == nil {
 			v.Assert(false, "every entry of the union exists")
 			continue
@@ -101,11 +101,11 @@ func VH_C15_wildcard() {
 		v.Assert(d.Kind == ref[i].Kind && string(d.Data) == string(ref[i].Data) && d.Target == ref[i].Target && d.Perm == ref[i].Perm && d.Uid == ref[i].Uid, "each entry of the union is the same as in the individual copy")
 	}
 	if pat == 0 {
-		v.Assert(findEntry(after, "out/y") == nil && findEntry(after, "y") == nil, "an entry that does not match the wildcard is not copied")
+		v.Assert(vh_findEntry(after, "out/y") == nil && vh_findEntry(after, "y") == nil, "an entry that does not match the wildcard is not copied")
 	}
 }
 
-func hasSymlinkMatch(src string) bool {
+func vh_hasSymlinkMatch(src string) bool {
 	for _, e := range m.Snapshot(src) {
 		if (e.Path == "t/x1" || e.Path == "t/x2") && e.Kind == m.KSymlink {
 			return true
